@@ -39,6 +39,16 @@ Proof.
 Qed.
 Print Assumptions C15_csv_records.
 
+(* what csv_spec means cell by cell: with distinct non-empty field names the j-th name of a row gives the
+   j-th cell of its line (the empty string past the end of a short line) — the value a template or a
+   preprocessor path `source.<name>[i].<field>` reads *)
+Theorem C15_csv_cell :
+  forall names cells j k,
+    Forall (fun f => f <> []) names -> NoDup names -> nth_error names j = Some k ->
+    row_get (mk_row names 0 cells []) k = Some (nth j cells []).
+Proof. exact (fun names cells => mk_row_nth names 0%N cells []). Qed.
+Print Assumptions C15_csv_cell.
+
 Definition tab_file : bytes := [117;48;9;110;48;10; 117;49;9;110;49;10]%N.   (* "u0\tn0\nu1\tn1\n" *)
 Definition tab_opts : csv_opts := {| co_delim := [9%N]; co_fields := [[105;100]; [110;97;109;101]]%N; co_ignore := false |}.
 
